@@ -314,22 +314,25 @@ inductive SelKind where
   | withSelect
   | csPoppy (rate : Nat)
 
-/-- `build_bp_index` (+ select support), `simd = true` uses the SSE4.1 lane model for L1/L2.
-`none` = the `assert!(len <= u32::MAX)` panic. -/
+/-- `build_bp_index` (+ select support) for `len < 2^32`; `simd = true` uses the SSE4.1 lane model
+for L1/L2. -/
+def mkBP (simd : Bool) (stored : List (BitVec 64)) (len : Nat) (k : SelKind) : BP :=
+  let empty := stored.isEmpty ∨ len = 0
+  let l0 := if empty then [] else buildL0 stored len
+  let l1 := if simd then buildL1Sse l0 else buildL1 l0
+  let l2 := if simd then buildL2Sse l1 else buildL2 l1
+  let r := if empty then ([], [], 0) else buildRank stored len
+  let tot := r.2.2
+  let sel := match k with
+    | .noSelect => Sel.none
+    | .withSelect => Sel.withSelect (selectIndexBuild stored tot 256).toArray
+    | .csPoppy rate => Sel.csPoppy (csPoppyBuild stored tot (rate % 2 ^ 32)).toArray (max (rate % 2 ^ 32) 1)
+  { words := stored.toArray, len := len, totalOnes := tot, l0 := l0.toArray, l1 := l1.toArray,
+    l2 := l2.toArray, rankL1 := r.1.toArray, rankL2 := r.2.1.toArray, sel := sel }
+
+/-- The constructors' common body: `none` = the `assert!(len <= u32::MAX)` panic. -/
 def build (simd : Bool) (stored : List (BitVec 64)) (len : Nat) (k : SelKind) : Option BP :=
-  if len ≥ 2 ^ 32 then none
-  else
-    let empty := stored.isEmpty ∨ len = 0
-    let l0 := if empty then [] else buildL0 stored len
-    let l1 := if simd then buildL1Sse l0 else buildL1 l0
-    let l2 := if simd then buildL2Sse l1 else buildL2 l1
-    let (r1, r2, tot) := if empty then ([], [], 0) else buildRank stored len
-    let sel := match k with
-      | .noSelect => Sel.none
-      | .withSelect => Sel.withSelect (selectIndexBuild stored tot 256).toArray
-      | .csPoppy rate => Sel.csPoppy (csPoppyBuild stored tot (rate % 2 ^ 32)).toArray (max (rate % 2 ^ 32) 1)
-    some { words := stored.toArray, len := len, totalOnes := tot, l0 := l0.toArray, l1 := l1.toArray,
-           l2 := l2.toArray, rankL1 := r1.toArray, rankL2 := r2.toArray, sel := sel }
+  if len ≥ 2 ^ 32 then none else some (mkBP simd stored len k)
 
 /-- Owned constructors (`new`, `new_with_select`, `new_with_cspoppy[_config]`). -/
 def buildOwned (simd : Bool) (ws : List (BitVec 64)) (len : Nat) (k : SelKind) : Option BP :=
@@ -338,6 +341,11 @@ def buildOwned (simd : Bool) (ws : List (BitVec 64)) (len : Nat) (k : SelKind) :
 /-- Borrowed constructors (`from_words*`). -/
 def buildBorrowed (simd : Bool) (ws : List (BitVec 64)) (len : Nat) (k : SelKind) : Option BP :=
   build simd ws len k
+
+/-- Any of the eight constructors: owned (`new*`) or borrowed (`from_words*`) storage, a select
+support, scalar or SSE4.1 (`simd` build) L1/L2 builders. -/
+def construct (simd owned : Bool) (ws : List (BitVec 64)) (len : Nat) (k : SelKind) : Option BP :=
+  if owned then buildOwned simd ws len k else buildBorrowed simd ws len k
 
 /-! ### accessors -/
 
